@@ -456,13 +456,14 @@ where
     }
 
     fn writer(&self) -> Option<Self::Writer> {
-        let mut inner = self.inner.writer()?;
-        inner.untrack();
         let inner_path = self.inner.path().into_iter().collect::<StorePath>();
         let keys = self
             .inner
             .keys()
             .expect("using keys on a store with no keys");
+        // look the key up *before* taking the write lock: if this is the first access to
+        // the keys of this field, they are initialized by reading the collection, which
+        // cannot be done (and would silently yield no keys at all) while it is locked
         let index = keys
             .with_field_keys(
                 inner_path.clone(),
@@ -471,6 +472,9 @@ where
             )
             .flatten()
             .map(|(_, idx)| idx)?;
+
+        let mut inner = self.inner.writer()?;
+        inner.untrack();
 
         let triggers = self.triggers_for_current_path();
 
